@@ -14,6 +14,7 @@ are separate.
 """
 import gc
 import json
+import os
 import math
 import pathlib
 import warnings
@@ -35,7 +36,10 @@ RULE = ('unit: float matrices (integer counts, all-zero rows, single column, '
         'beyond the dtype range; also queries of 300-600 columns with the '
         'markers beyond column 255) x relations declared / scale '
         '/ gene-permutation (raw and log2CPM) / extra-genes / negative (3 '
-        'encodings x 4 dtypes). non-trivial = tree with >=2 leaves and a '
+        'encodings x 4 dtypes) / same-process histories (one query path '
+        'rewritten in place clean <-> one negative entry, same byte size, '
+        'through run_mapping with tmp_dir=None and through '
+        'run_type_assignment_on_h5ad). non-trivial = tree with >=2 leaves and a '
         'non-identity variant (pipeline), a positive-sum row with >=2 '
         'non-zero entries (cpm), any non-empty matrix (ge_zero), >=1 node '
         'marker or a malformed input (node); distinct by canonical JSON of '
@@ -1041,6 +1045,213 @@ def gen_pipeline_cases(ctx, rng, i):
 
 
 # ===========================================================================
+# (C) same-process histories: one query path rewritten in place
+# ===========================================================================
+
+def _hist_run(route, scratch, stats, markers, prob, qpath, cfg, tag):
+    """one mapping of the raw query at qpath; returns dict(ok, results, error)"""
+    import tempfile
+    scratch = pathlib.Path(scratch)
+    out = scratch / ('hout_' + tag)
+    systmp = scratch / 'hist_systmp'
+    for p_ in (out,):
+        if p_.exists():
+            import shutil
+            shutil.rmtree(p_)
+        p_.mkdir()
+    systmp.mkdir(exist_ok=True)
+    old_tmp = tempfile.tempdir
+    old_env = os.environ.get('TMPDIR')
+    tempfile.tempdir = str(systmp)      # tmp_dir=None must not leak
+    os.environ['TMPDIR'] = str(systmp)
+    err = None
+    results = None
+    try:
+        if route == 'run_mapping':
+            config = pipeline.mapping_config(
+                qpath, stats, markers, out, None,
+                n_processors=cfg.get('n_processors', 2),
+                chunk_size=cfg.get('chunk_size', 10),
+                bootstrap_factor=cfg['bootstrap_factor'],
+                bootstrap_iteration=cfg.get('bootstrap_iteration', 10),
+                rng_seed=cfg.get('rng_seed', 11),
+                normalization='raw', min_markers=1, csv=False)
+            res = pipeline.run_mapping(config)
+            err = res['error']
+            if isinstance(res['json'], dict) and 'results' in res['json']:
+                results = res['json']['results']
+        else:
+            from cell_type_mapper.taxonomy.taxonomy_tree import TaxonomyTree
+            from cell_type_mapper.type_assignment.marker_cache_v2 import (
+                create_marker_cache_from_specified_markers)
+            from cell_type_mapper.type_assignment.election_runner import (
+                run_type_assignment_on_h5ad)
+            import anndata
+            with pipeline.quiet():
+                tree = TaxonomyTree(data=json.loads(json.dumps(prob['tree'])))
+                a = anndata.read_h5ad(qpath, backed='r')
+                qgenes = list(a.var_names)
+                a.file.close()
+                cpath = out / 'cache.h5'
+                try:
+                    create_marker_cache_from_specified_markers(
+                        marker_lookup=json.loads(json.dumps(prob['markers'])),
+                        reference_gene_names=list(prob['ref_genes']),
+                        query_gene_names=qgenes, output_cache_path=cpath,
+                        taxonomy_tree=tree, min_markers=1)
+                    lookup = {lv: cfg['bootstrap_factor']
+                              for lv in tree.hierarchy[:-1]}
+                    lookup['None'] = cfg['bootstrap_factor']
+                    results = run_type_assignment_on_h5ad(
+                        query_h5ad_path=qpath,
+                        precomputed_stats_path=stats,
+                        marker_gene_cache_path=cpath,
+                        taxonomy_tree=tree,
+                        n_processors=cfg.get('n_processors', 2),
+                        chunk_size=cfg.get('chunk_size', 10),
+                        bootstrap_factor_lookup=lookup,
+                        bootstrap_iteration=cfg.get('bootstrap_iteration',
+                                                    10),
+                        rng=np.random.default_rng(cfg.get('rng_seed', 11)),
+                        n_assignments=3, normalization='raw',
+                        tmp_dir=None, results_output_path=None)
+                    results = core.jsonable(results)
+                except BaseException as e:      # noqa
+                    if isinstance(e, KeyboardInterrupt):
+                        raise
+                    err = e
+                    results = None
+    finally:
+        tempfile.tempdir = old_tmp
+        if old_env is None:
+            os.environ.pop('TMPDIR', None)
+        else:
+            os.environ['TMPDIR'] = old_env
+    text = None if err is None else '%s: %s' % (type(err).__name__, err)
+    with pipeline.quiet():
+        err = None
+        gc.collect()
+    return {'ok': text is None, 'results': results, 'error': text}
+
+
+def check_history(ctx, d, scratch):
+    """
+    d: kind=history, problem, genes, cell_ids, X (clean raw integer counts),
+    neg [row, col, value], encoding, dtype, route (run_mapping | direct),
+    steps (list of 'clean' | 'neg'), config.
+    ONE query path is rewritten in place between the steps (same shape, dtype,
+    encoding, hence the same byte size) and mapped again in the same process:
+    negative version => raises and writes no results; clean version => maps
+    exactly like the same matrix at a fresh path.
+    """
+    prob = d['problem']
+    cfg = d['config']
+    route = d['route']
+    enc = d.get('encoding', 'dense')
+    dt = np.dtype(d.get('dtype', 'float64'))
+    stats, markers = _write_problem(scratch, prob)
+    scratch = pathlib.Path(scratch)
+    X = np.array(d['X'], dtype=dt)
+    Xn = X.copy()
+    Xn[d['neg'][0], d['neg'][1]] = d['neg'][2]
+    fresh = scratch / 'hist_fresh.h5ad'
+    fixed = scratch / 'hist_query.h5ad'
+    for p_ in (fresh, fixed):
+        if p_.exists():
+            p_.unlink()
+    ctx.count('history:%s/%s/%s' % (route, enc, dt.name))
+    pipeline.write_h5ad(fresh, X, d['cell_ids'], d['genes'], encoding=enc)
+    ref = _hist_run(route, scratch, stats, markers, prob, fresh, cfg, 'fresh')
+    ctx.traces += 1
+    if not ref['ok'] or ref['results'] is None:
+        ctx.count('history:base-skipped')
+        ctx.log('history base run failed: %r' % (ref['error'],))
+        return
+    size0 = None
+    for j, what in enumerate(d['steps']):
+        if fixed.exists():
+            fixed.unlink()
+        pipeline.write_h5ad(fixed, Xn if what == 'neg' else X,
+                            d['cell_ids'], d['genes'], encoding=enc)
+        size = os.path.getsize(fixed)
+        if size0 is None:
+            size0 = size
+        elif size != size0:
+            ctx.count('history:step-skipped-size-differs')
+            continue
+        r = _hist_run(route, scratch, stats, markers, prob, fixed, cfg,
+                      'step')
+        ctx.traces += 1
+        hist = dict(d)
+        hist['failing_step'] = j
+        hist['steps_run'] = d['steps'][:j + 1]
+        ctx.case(jkey('history', route, enc, dt.name, d['steps'][:j + 1],
+                      d['X'], d['neg'], cfg),
+                 sample={'kind': 'history', 'route': route, 'encoding': enc,
+                         'steps': d['steps'][:j + 1], 'ok': r['ok']}
+                 if j == len(d['steps']) - 1 else None)
+        if what == 'neg':
+            if r['ok'] or r['results'] is not None:
+                ctx.violation(
+                    'C07/history/negative/mapped',
+                    'step %d of %r (%s, %s, %s): the query file, rewritten in '
+                    'place with a negative raw value, was mapped'
+                    % (j + 1, d['steps'], route, enc, dt.name), hist)
+                return
+            if 'must be >= 0' not in str(r['error']):
+                ctx.violation(
+                    'C07/correspondence/negative',
+                    'negative raw input is rejected, but not by the minimum '
+                    'check: %r' % (r['error'],),
+                    dict(hist, broken='correspondence CTM.Normalize.'
+                         'negativeCheck ~ run_type_assignment_on_h5ad'),
+                    found_input=False)
+                return
+        else:
+            if not r['ok'] or r['results'] is None:
+                ctx.violation(
+                    'C07/history/clean/rejected',
+                    'step %d of %r (%s, %s, %s): the query file, rewritten in '
+                    'place WITHOUT any negative value, is refused: %r'
+                    % (j + 1, d['steps'], route, enc, dt.name, r['error']),
+                    hist)
+                return
+            if U.results_bytes(r['results']) != \
+                    U.results_bytes(ref['results']):
+                ctx.violation(
+                    'C07/history/clean/results-differ',
+                    'step %d of %r: the clean matrix at the reused path maps '
+                    'differently from the same matrix at a fresh path: %s'
+                    % (j + 1, d['steps'],
+                       U.first_difference(ref['results'], r['results'])),
+                    hist)
+                return
+
+
+def gen_history(ctx, rng, i):
+    prob, X, genes, cells = gen_base(ctx, rng, i)
+    n, g = X.shape
+    enc = ENCODINGS[i % 3]
+    dt = ['float64', 'float32', 'int32', 'int64'][(i // 3) % 4]
+    # the negative value replaces a POSITIVE count, so that the sparse
+    # encodings store the same number of entries (same byte size)
+    pos = [(a, b) for a in range(n) for b in range(g) if X[a, b] > 0]
+    a, b = rng.choice(pos)
+    steps = rng.choice([['clean', 'neg', 'clean'], ['neg', 'clean', 'neg'],
+                        ['clean', 'neg'], ['neg', 'clean']])
+    return {'kind': 'history', 'problem': prob, 'genes': genes,
+            'cell_ids': cells, 'X': X.tolist(),
+            'neg': [a, b, -float(rng.randint(1, 20))],
+            'encoding': enc, 'dtype': dt,
+            'route': 'run_mapping' if i % 2 == 0 else 'direct',
+            'steps': steps,
+            'config': {'bootstrap_factor': 0.9, 'bootstrap_iteration': 5,
+                       'rng_seed': rng.randrange(10**6),
+                       'n_processors': rng.choice([1, 2]),
+                       'chunk_size': rng.choice([3, 100])}}
+
+
+# ===========================================================================
 # run / replay
 # ===========================================================================
 
@@ -1054,6 +1265,8 @@ def _dispatch(ctx, d, scratch, cache=None, skipped=None):
         check_node(ctx, d)
     elif kind == 'pipeline':
         check_pipeline(ctx, d, scratch, cache, skipped)
+    elif kind == 'history':
+        check_history(ctx, d, scratch)
     else:
         return False
     return True
@@ -1088,6 +1301,9 @@ def run(ctx):
                     check_pipeline(ctx, d, scratch, cache, skipped)
                 if skipped:
                     n_skipped += 1
+            n_hist = 6 if quick else 48
+            for i in range(n_hist):
+                check_history(ctx, gen_history(ctx, rng, i), scratch)
             ctx.log('pipeline level done at %.1fs (%d bases, %d skipped)'
                     % (ctx.elapsed(), n_base, n_skipped))
             if 3 * n_skipped > n_base:
